@@ -17,7 +17,9 @@ namespace TIV.C20
 
 /-- getter defaults, the JPEG quality bound and the global limit's default, as the code has them -/
 theorem generated_defaults :
-    defaultsOfGenerated = { jq := -1, rf := true, fsMeta := false, jqMax := 95, na := 2097152 } := by decide
+    defaultsOfGenerated =
+      { jq := -1, rf := true, fsMeta := false, jqMax := 95, na := 2097152, animName := "anim", wholeName := "whole" } := by
+  decide
 
 /-- the library's own classes form a well-formed table: single inheritance with parents first,
     `_render_methods` defined at the root, a class that defines `_default_render_method` starts
@@ -312,9 +314,9 @@ theorem reject_pure (s : State) (op : Op) (e : Err) (hr : (step s op).2 = .err e
     split
     · rename_i hp; rw [if_pos hp] at hr; cases hr
     · rfl
-  | ni c =>
-    change (stepG implSem s (.ni c)).2 = _ at hr
-    show (stepG implSem s (.ni c)).1 = s
+  | ni c an =>
+    change (stepG implSem s (.ni c an)).2 = _ at hr
+    show (stepG implSem s (.ni c an)).1 = s
     simp only [stepG] at hr ⊢
     split
     · rfl
@@ -340,22 +342,22 @@ theorem reject_pure (s : State) (op : Op) (e : Err) (hr : (step s op).2 = .err e
     show (stepG implSem s (.get k t)).1 = s
     simp only [stepG]
     split <;> rfl
-  | rend i ov =>
-    show (stepG implSem s (.rend i ov)).1 = s
+  | rend i ov e' =>
+    show (stepG implSem s (.rend i ov e')).1 = s
     simp only [stepG]
     split <;> rfl
   | dump => rfl
 
 /-- reading a setting, rendering and dumping never change anything -/
 theorem observers_pure (s : State) :
-    (∀ k t, (step s (.get k t)).1 = s) ∧ (∀ i ov, (step s (.rend i ov)).1 = s) ∧ (step s .dump).1 = s := by
+    (∀ k t, (step s (.get k t)).1 = s) ∧ (∀ i ov e, (step s (.rend i ov e)).1 = s) ∧ (step s .dump).1 = s := by
   refine ⟨?_, ?_, rfl⟩
   · intro k t
     show (stepG implSem s (.get k t)).1 = s
     simp only [stepG]
     split <;> rfl
-  · intro i ov
-    show (stepG implSem s (.rend i ov)).1 = s
+  · intro i ov e
+    show (stepG implSem s (.rend i ov e)).1 = s
     simp only [stepG]
     split <;> rfl
 
@@ -409,6 +411,76 @@ theorem render_uses_effective (s : State) (i : Nat) (hi : i < s.ninst) (ms : Lis
   · intro x hx
     unfold effMethod
     simp only [hi, decide_true, Bool.not_true, Bool.false_eq_true, if_false, hms, he, hx]
+
+/-! ## used_is_effective — every render entry point -/
+
+/-- the only thing that stands between the resolved method and the method used: iterm2's
+    documented fallback — ANIM becomes WHOLE for separate frames and for non-animated images;
+    every other method is used as resolved, by every entry point, for both styles -/
+theorem used_method_fallback (d : Defaults) (iterm animated frame : Bool) (m : String) :
+    usedMethod d iterm animated frame m =
+      if iterm = true ∧ m = d.animName ∧ (frame = true ∨ animated = false) then d.wholeName else m := by
+  unfold usedMethod
+  cases iterm <;> cases animated <;> cases frame <;> by_cases hm : m = d.animName <;> simp [hm]
+
+/-- FOR EVERY ENTRY POINT (`static`, `str`, `format`, `draw(animate=False)`, the `draw()`
+    animation, `ImageIterator`), every instance of a style with render methods, in every
+    well-formed state: the entry point resolves the method exactly as `effMethod` does — the
+    per-call override if one is given, else the instance's effective method — and uses it up to
+    the documented fallback; it never reads any other class's setting.  (The arguments an entry
+    point cannot carry — an override for `str()`, an invalid letter for a format spec — and an
+    `ImageIterator` over a still image are excluded explicitly.) -/
+theorem used_is_effective (s : State) (i : Nat) (hi : i < s.ninst) (ov : PyVal) (e : Entry)
+    (hiter : e = .iter → s.ianim i = true)
+    (harg : ov = .none ∨ ((e = .static ∨ e = .draw ∨ e = .anim) ) ∨
+      (∃ x ms, ov = .str x ∧ e ≠ .str ∧ methodsOf s (s.icls i) = some ms ∧ lower x ∈ ms ∧ x ≠ "")) :
+    usedG implSem s i ov e =
+      (match effMethod implSem s i ov with
+       | .ok m => .ok (usedMethod s.dft (s.info (s.icls i)).iterm (s.ianim i) (e.frame (s.ianim i)) m)
+       | .error err => .error err) := by
+  unfold usedG
+  have h1 : (!decide (i < s.ninst)) = false := by simp [hi]
+  have h2 : (e = .iter && !s.ianim i) = false := by
+    by_cases he : e = .iter
+    · simp [he, hiter he]
+    · simp [he]
+  simp only [h1, Bool.false_eq_true, if_false]
+  rw [if_neg (by simp [h2])]
+  have hok : entryArgOk s i e ov = true := by
+    rcases harg with rfl | he | ⟨x, ms, rfl, hne, hms, hx, hx'⟩
+    · cases e <;> rfl
+    · rcases he with rfl | rfl | rfl <;> cases ov <;> rfl
+    · cases e with
+      | str => exact absurd rfl hne
+      | fmt => simp [entryArgOk, hms, hx, hx']
+      | iter => simp [entryArgOk, hms, hx, hx']
+      | static => rfl
+      | draw => rfl
+      | anim => rfl
+  simp only [hok, Bool.not_true, Bool.false_eq_true, if_false]
+  cases effMethod implSem s i ov <;> rfl
+
+/-- hence, with `render_uses_effective`: without an override every entry point uses the instance's
+    own value, else its class's reading (`instLookupWith clsLookup`), lower-cased, up to the fallback -/
+theorem used_is_effective_no_override (s : State) (i : Nat) (hi : i < s.ninst) (e : Entry)
+    (hiter : e = .iter → s.ianim i = true) (ms : List String)
+    (hms : methodsOf s (s.icls i) = some ms) (hne : ms ≠ []) (x : String)
+    (hx : instLookupWith clsLookup s .rm i = some (.str x)) :
+    usedG implSem s i .none e =
+      .ok (usedMethod s.dft (s.info (s.icls i)).iterm (s.ianim i) (e.frame (s.ianim i)) (lower x)) := by
+  rw [used_is_effective s i hi .none e hiter (Or.inl rfl), (render_uses_effective s i hi ms hms hne).1, hx]
+
+/-- and with a valid override every entry point that can carry one uses the override (up to the
+    fallback), whatever is set on any class or instance -/
+theorem used_is_override (s : State) (i : Nat) (hi : i < s.ninst) (e : Entry) (hstr : e ≠ .str)
+    (hiter : e = .iter → s.ianim i = true) (ms : List String)
+    (hms : methodsOf s (s.icls i) = some ms) (x : String) (hx : lower x ∈ ms) (hx' : x ≠ "") :
+    usedG implSem s i (.str x) e =
+      .ok (usedMethod s.dft (s.info (s.icls i)).iterm (s.ianim i) (e.frame (s.ianim i)) (lower x)) := by
+  have hne : ms ≠ [] := by
+    intro h; rw [h] at hx; simp at hx
+  rw [used_is_effective s i hi (.str x) e hiter (Or.inr (Or.inr ⟨x, ms, rfl, hstr, hms, hx, hx'⟩)),
+    (render_uses_effective s i hi ms hms hne).2.1 x hx hx']
 
 /-! ## global_shared -/
 
@@ -520,11 +592,11 @@ theorem global_untouched_by_slots {s s' : State} (sl : Slot) (t : Target)
 `KittyImage` set to WHOLE, `U6` set to LINES.  `demoI`: the same under `ITerm2Image` (id 3). -/
 
 def demo : State :=
-  (run init [.nc 4 none, .nc 6 none, .nc 4 none, .ni 7, .set (.slot .rm) (.cls 4) (.str "WHOLE"),
+  (run init [.nc 4 none, .nc 6 none, .nc 4 none, .ni 7 true, .set (.slot .rm) (.cls 4) (.str "WHOLE"),
     .set (.slot .rm) (.cls 6) (.str "lines")]).1
 
 def demoI : State :=
-  (run init [.nc 3 none, .nc 6 none, .ni 7, .set (.slot .jq) (.cls 3) (.int 50),
+  (run init [.nc 3 none, .nc 6 none, .ni 7 true, .set (.slot .jq) (.cls 3) (.int 50),
     .set (.slot .jq) (.cls 6) (.int 0), .set (.slot .rm) (.inst 0) (.str "Anim")]).1
 
 def okState {α} : Except Err α → Option α
@@ -574,6 +646,18 @@ example :
     okState (effMethod implSem demo 0 .none) = some "lines" ∧
     excOf (effMethod implSem demo 0 (.str "anim")) = some .ValueError := by decide
 
+/-- `used_is_effective` (the seeded history): `ITerm2Image` class-wide ANIM, the subclass `U6` says
+    LINES — every entry point of the instance of `U7(U6)` uses LINES; with the instance's own ANIM the
+    static entry points animate natively and the frame entry points fall back to WHOLE -/
+example :
+    let s := (run init [.nc 3 none, .nc 6 none, .ni 7 true, .set (.slot .rm) (.cls 3) (.str "anim"),
+      .set (.slot .rm) (.cls 6) (.str "lines")]).1
+    ([Entry.static, .str, .fmt, .draw, .anim, .iter].map fun e => okState (usedG implSem s 0 .none e)) =
+      [some "lines", some "lines", some "lines", some "lines", some "lines", some "lines"] ∧
+    ([Entry.static, .str, .fmt, .draw, .anim, .iter].map fun e => okState (usedG implSem demoI 0 .none e)) =
+      [some "anim", some "anim", some "anim", some "anim", some "whole", some "whole"] ∧
+    okState (usedG implSem demoI 0 (.str "LINES") .anim) = some "lines" := by decide
+
 /-- `reject_pure`: operations that are rejected exist for every setting -/
 example :
     errOf (step demoI (.set (.slot .jq) (.cls 6) (.int 96))) = some .ValueError ∧
@@ -583,7 +667,7 @@ example :
     errOf (step demo (.set (.slot .rm) (.cls 6) (.str "anim"))) = some .ValueError ∧
     errOf (step demo (.set (.slot .rm) (.inst 0) (.int 1))) = some .TypeError ∧
     errOf (step demoI (.set .na (.cls 7) (.int 0))) = some .ValueError ∧
-    errOf (step demo (.ni 1)) = some .OutOfModel := by decide
+    errOf (step demo (.ni 1 true)) = some .OutOfModel := by decide
 
 /-- `instance_readonly_*`: instances (of an iterm2 class) exist -/
 example : (0 < demoI.ninst) ∧ (demoI.info (demoI.icls 0)).iterm = true ∧ 0 < demo.ninst := by decide
